@@ -330,11 +330,22 @@ pub fn workload_templates(rng: &mut Rng) -> (Vec<String>, String) {
     (forms, format!("templates:{}", names.join("+")))
 }
 
+pub fn workload_g05(rng: &mut Rng) -> (Vec<String>, String) {
+    let g = crate::gen::g05::session(rng);
+    (g.forms.iter().map(|f| f.text()).collect(), "G05".into())
+}
+
+pub fn workload_g02(rng: &mut Rng) -> (Vec<String>, String) {
+    let sk = crate::gen::g02::random_skeleton(rng);
+    (sk.render().iter().map(|f| f.text()).collect(), "G02".into())
+}
+
 pub fn workload_mixed(rng: &mut Rng) -> (Vec<String>, String) {
-    if rng.chance(1, 2) {
-        workload_g01(rng)
-    } else {
-        workload_templates(rng)
+    match rng.below(6) {
+        0 | 1 => workload_g01(rng),
+        2 => workload_g05(rng),
+        3 => workload_g02(rng),
+        _ => workload_templates(rng),
     }
 }
 
